@@ -45,7 +45,7 @@ fn peer_tuple(p: &PeerSnap) -> String {
 
 pub fn limits(peers: &[PeerSnap]) -> Option<(&'static str, String)> {
     let regular = peers.iter().filter(|p| !p.am_choked && !p.optimistic_unchoke).count();
-    let optimistic = peers.iter().filter(|p| p.optimistic_unchoke).count();
+    let optimistic = peers.iter().filter(|p| p.optimistic_unchoke && !p.am_choked).count();
     if regular > 10 {
         return Some(("more-than-ten-regular-unchokes", format!("{} peers are unchoked without being the optimistic one: {:?}", regular, peers.iter().map(peer_tuple).collect::<Vec<_>>())));
     }
@@ -101,7 +101,7 @@ impl Scenario for Slots {
         format!("slots-n{}-{}-{}-r{}{}", self.n, if self.symmetric { "sym" } else { "full" }, self.kinds, self.rates.len(), if self.preset_rates { format!("-preset{}", self.preset_busy) } else { String::new() })
     }
     fn cfg(&self) -> WorldCfg {
-        WorldCfg { torrent: Torrent::new("t", 1, &[("f", 1)], true), have: vec![], peers: vec![], gated: false }
+        WorldCfg { torrent: Torrent::new("t", 1, &[("f", 1)], true), have: vec![], peers: vec![], gated: false, stale: vec![] }
     }
     fn explore_choices(&self) -> bool {
         true
@@ -116,6 +116,12 @@ impl Scenario for Slots {
         }
         mon.bitfield_sent = vec![false; self.n];
         mon.killed = vec![false; self.n];
+        if !self.kinds.contains('B') {
+            for k in 0..self.n {
+                w.step(&Ev::MgrBitfield(k, vec![true]), &[]);
+                mon.bitfield_sent[k] = true;
+            }
+        }
         for k in 0..self.preset_busy {
             w.step(&Ev::MgrBitfield(k, vec![true]), &[]);
             w.step(&Ev::MgrInterested(k), &[]);
@@ -250,7 +256,7 @@ impl Scenario for Wire {
         format!("wire-n{}", self.n)
     }
     fn cfg(&self) -> WorldCfg {
-        WorldCfg { torrent: Torrent::new("t", 5, &[("f", 10)], true), have: vec![0, 1], peers: (0..self.n).map(|k| peer_cfg(k, k % 2 == 0)).collect(), gated: true }
+        WorldCfg { torrent: Torrent::new("t", 5, &[("f", 10)], true), have: vec![0, 1], peers: (0..self.n).map(|k| peer_cfg(k, k % 2 == 0)).collect(), gated: true, stale: vec![] }
     }
     fn explore_choices(&self) -> bool {
         true
@@ -353,6 +359,9 @@ pub fn mgr_scenarios(thorough: bool) -> Vec<(Slots, usize)> {
         (Slots { n: 3, symmetric: true, kinds: "BINSR", rates: r2.clone(), preset_rates: false, preset_busy: 0 }, if thorough { 8 } else { 6 }),
         (Slots { n: 12, symmetric: true, kinds: "BINR", rates: vec![], preset_rates: true, preset_busy: 9 }, if thorough { 9 } else { 7 }),
     ];
+    // long histories of interest changes and rotations (several optimistic rounds) on few peers
+    v.push((Slots { n: 2, symmetric: false, kinds: "INR", rates: vec![], preset_rates: true, preset_busy: 0 }, if thorough { 18 } else { 14 }));
+    v.push((Slots { n: 3, symmetric: false, kinds: "INR", rates: vec![], preset_rates: true, preset_busy: 0 }, if thorough { 13 } else { 10 }));
     if thorough {
         v.push((Slots { n: 4, symmetric: false, kinds: "BINSKR", rates: r2.clone(), preset_rates: false, preset_busy: 0 }, 7));
         v.push((Slots { n: 13, symmetric: true, kinds: "BINKR", rates: vec![], preset_rates: true, preset_busy: 10 }, 8));
